@@ -64,7 +64,7 @@ func (p *Program) verifyFunc(name string, view string) *FuncResult {
 		}
 	}
 	e.decl("alloc0", sInt)
-	e.assert(fmt.Sprintf("(and (>= alloc0 0) (< alloc0 %s))", pow2(embBase-2)))
+	e.assert(fmt.Sprintf("(and (>= alloc0 64) (< alloc0 %s))", pow2(embBase-2)))
 	st := &State{heaps: map[string]string{}, alloc: "alloc0"}
 	var args []Val
 	for i, prm := range fn.Params {
@@ -127,6 +127,10 @@ func (p *Program) verifyFunc(name string, view string) *FuncResult {
 				sortS := p.ghostSort(sc.Ghost)
 				nv := f.specTerm(sc.Expr, env)
 				prev := e.getHeap(r.state, "ghost_"+sc.Ghost, sortS)
+				if sc.Key != nil {
+					oldEnv := &specEnv{f: f, st: f.entry, old: f.entry, results: r.results}
+					nv.T = fmt.Sprintf("(store %s %s %s)", prev, f.specTerm(sc.Key, oldEnv).T, nv.T)
+				}
 				val := nv.T
 				if sc.Cond != nil {
 					val = ite(f.specBool(sc.Cond, env), nv.T, prev)
